@@ -33,7 +33,9 @@ RULE = ('small codes: one case per Pauli operator (all 4^n; in quick a '
         'probe vector; distinct = (class,size,deformation,vector); '
         'non-trivial = vector != 0')
 ASSUMPTIONS = ['supported size family = pv/families.py']
-REQUIRED_COUNTERS = ['vectors_classified', 'history_steps',
+REQUIRED_COUNTERS = ['vectors_given_as_2d_or_sparse',
+                     'sparse_vectors_with_stored_zeros',
+                     'vectors_classified', 'history_steps',
                      'objects_touched_before_judging', 'in_group', 'logical_nontrivial',
                      'out_of_codespace', 'run_once_records']
 EXHAUSTIVE = True
@@ -129,10 +131,49 @@ class Oracle:
                 [gf2.popcount(e & x) & 1 for x in self.Lxs])
 
 
-def judge(code, orc, e_int, desc, out, mech_base, dtype='uint8'):
+FORMS = ['1d', 'row2d', 'csr', 'csr0', 'csr-sum']
+
+
+def as_form(e_int, n, dtype, form, salt=0):
+    """The operator in one of the representations callers hold residual
+    errors in.  'csr0' carries explicitly stored zeros, 'csr-sum' is the
+    product of two sparse Paulis reduced with the library's own idiom
+    (t = a + b; t.data %= 2), which stores a zero wherever they overlap."""
+    import scipy.sparse as sp
+    e = gf2.unpack(e_int, 2 * n).astype(dtype)
+    if form == '1d':
+        return e
+    if form == 'row2d':
+        return e.reshape(1, -1)
+    if form == 'csr':
+        return sp.csr_matrix(e.astype('uint8').reshape(1, -1))
+    r = np.random.default_rng([e_int % (1 << 62), salt, 44])
+    if form == 'csr0':
+        nz = np.flatnonzero(e)
+        zero_at = np.setdiff1d(r.choice(2 * n, size=min(2 * n, 3),
+                                        replace=False), nz)
+        idx = np.concatenate([nz, zero_at]).astype(np.int32)
+        dat = np.concatenate([np.ones(len(nz)), np.zeros(len(zero_at))]
+                             ).astype('uint8')
+        o = np.argsort(idx)
+        return sp.csr_matrix((dat[o], idx[o], np.array([0, len(idx)])),
+                             shape=(1, 2 * n))
+    a = (r.random(2 * n) < 0.3).astype('uint8')
+    b = (a ^ e.astype('uint8')).astype('uint8')
+    t = sp.csr_matrix(a.reshape(1, -1)) + sp.csr_matrix(b.reshape(1, -1))
+    t.data %= 2
+    return t
+
+
+def judge(code, orc, e_int, desc, out, mech_base, dtype='uint8', form='1d'):
     """Classify one vector with the library and with the oracle."""
     n = orc.n
-    e = gf2.unpack(e_int, 2 * n).astype(dtype)
+    e = as_form(e_int, n, dtype, form)
+    if form != '1d':
+        out.count('vectors_given_as_2d_or_sparse')
+        if form in ('csr0', 'csr-sum') and \
+                e.nnz > np.count_nonzero(e.toarray()):
+            out.count('sparse_vectors_with_stored_zeros')
     lib_cs = code.in_codespace(e)
     lib_le = np.asarray(code.logical_errors(e))
     lib_isle = code.is_logical_error(e)
@@ -150,11 +191,14 @@ def judge(code, orc, e_int, desc, out, mech_base, dtype='uint8'):
 
     def bad(tag, what):
         out.violation(f'{mech_base}/{tag}', what,
-                      dict(desc, error=gf2.unpack(e_int, 2 * n), dtype=dtype))
+                      dict(desc, error=gf2.unpack(e_int, 2 * n), dtype=dtype,
+                           form=form))
 
     if bool(lib_cs) != ref_cs:
         bad('in_codespace', f'in_codespace={lib_cs} but commutes-with-all='
             f'{ref_cs}')
+    if form != '1d' and lib_le.size == 2 * orc.k:
+        lib_le = lib_le.ravel()
     if lib_le.shape != (2 * orc.k,):
         bad('logical_errors-shape', f'shape {lib_le.shape} != ({2*orc.k},)')
     elif [int(x) for x in lib_le] != ref_le:
@@ -199,7 +243,9 @@ def run_small(task, out):
     grp = 0
     for i in idx:
         e_int = (i * MULT + off) % total if stride > 1 else i
-        g, cs, le = judge(code, orc, e_int, desc, out, mech)
+        g, cs, le = judge(code, orc, e_int, desc, out, mech,
+                          form=FORMS[1 + (i // 7) % 4] if i % 7 == 3
+                          else '1d')
         cnt += 1
         grp += g
     out.case(dict(desc, chunk=c), nontrivial=True, n=cnt,
@@ -250,7 +296,8 @@ def run_large(task, out):
         probes.append(v)
     dts = ['uint8', 'int64', 'uint64', 'int8']
     for j, e_int in enumerate(probes):
-        judge(code, orc, e_int, desc, out, mech, dtype=dts[j % 4])
+        judge(code, orc, e_int, desc, out, mech, dtype=dts[j % 4],
+              form=FORMS[(j // 4) % 5] if j % 3 == 0 else '1d')
     out.case(desc, True, n=len(probes),
              distinct=len(set(probes) - {0}),
              sample=dict(desc, n=n, k=k, probes=len(probes)))
